@@ -6,14 +6,20 @@ use servlin::internal::{copy_chunked_async, CopyResult};
 
 /// args: data, read sizes, end (eof|err), write sizes, pending period
 pub fn case(ctx: &mut Ctx, data: &str, rsizes: &str, end: &str, wsizes: &str, pending: &str) {
+    case_f(ctx, data, rsizes, end, wsizes, pending, "-");
+}
+
+/// as `case`, with a writer that fails once it has accepted `fail_at` bytes (permanently, or once with `Interrupted`)
+pub fn case_f(ctx: &mut Ctx, data: &str, rsizes: &str, end: &str, wsizes: &str, pending: &str, fail_at: &str) {
     let bytes = dec(data);
     let rs = parse_sizes(rsizes);
     let ws = parse_sizes(wsizes);
     let end_err = end == "err";
     let pend: u64 = pending.parse().unwrap();
+    let fail: Option<usize> = fail_at.parse().ok();
     let obs = guard(move || {
         let mut reader = ScriptReader::new(bytes, rs, end_err, pend);
-        let mut writer = ScriptWriter::new(ws, None, if pend > 0 { pend + 1 } else { 0 });
+        let mut writer = ScriptWriter::new(ws, fail, if pend > 0 { pend + 1 } else { 0 });
         let res = block_on(copy_chunked_async(&mut reader, &mut writer));
         let r = match res {
             CopyResult::Ok(n) => format!("ok:{n}"),
@@ -22,7 +28,7 @@ pub fn case(ctx: &mut Ctx, data: &str, rsizes: &str, end: &str, wsizes: &str, pe
         };
         format!("{} {}", enc(&writer.out), r)
     });
-    ctx.emit("c07", &[data, rsizes, end, wsizes, pending], &obs);
+    if fail_at == "-" { ctx.emit("c07", &[data, rsizes, end, wsizes, pending], &obs); } else { ctx.emit("c07", &[data, rsizes, end, wsizes, pending, fail_at], &obs); }
 }
 
 fn rand_data(rng: &mut Rng, n: usize) -> Vec<u8> {
@@ -109,5 +115,15 @@ pub fn run(ctx: &mut Ctx) {
     for cut in 0..=40usize {
         go(ctx, &data[..cut], &[7, 1, 16], "err", &[3], 2);
         go(ctx, &data[..cut], &[7, 1, 16], "eof", &[1], 0);
+    }
+    // (5) the writer fails at every offset of a short stream's encoding (permanent error / one `Interrupted`), short writes before it
+    let data: Vec<u8> = (0..60u8).collect();
+    for k in 0..=95usize {
+        for ws in [vec![], vec![3usize], vec![1000, 2]] {
+            idx += 1;
+            if ctx.mine(idx) {
+                case_f(ctx, &enc(&data), &sizes_str(&[20, 9, 31]), "eof", &sizes_str(&ws), "0", &k.to_string());
+            }
+        }
     }
 }
